@@ -222,21 +222,45 @@ def run_shard(shard):
         if len(samples) < 4 and steps >= 3 and rb:
             samples.append(case_full)
 
+    def dispatch(t):
+        if t[0] == "d":
+            run_data(*t[1:])
+        else:
+            run_vi(*t[1:])
+
     if only is not None:
+        # a run may depend on the calls made before it in the same process (state kept between calls would be a violation of
+        # "for any sequence of losses"): the replay repeats the recorded predecessors first
+        for t in only.get("preceding_runs", []):
+            dispatch(tuple(tuple(a) if isinstance(a, list) else a for a in t))
+        del violations[:]
         perm = tuple(only["script"])
         if only["loop"] == "fit_to_data":
             run_data(perm, only["max_epochs"], only["max_patience"], only["return_best"], only["B"])
         else:
             run_vi(perm, only["steps"], only["return_best"])
     else:
+        tasks = []
         for L, perm, exhaustive in _scripts(shard):
             counters["exhaustive_scripts" if exhaustive else "sampled_scripts"] += 1
             for rb in (True, False):
                 for me in range(0, L + 1):
                     for pat in range(0, L + 1):
                         for B in ((1, 2) if (L <= 4 or shard.get("tier") == "thorough") else (1,)):
-                            run_data(perm, me, pat, rb, B)
-                    run_vi(perm, me, rb)
+                            tasks.append(("d", perm, me, pat, rb, B))
+                    tasks.append(("v", perm, me, rb))
+        # hostile order: runs of different scripts, lengths, patience and loops interleaved at random (every run is judged on
+        # its own; anything carried over from an earlier call in the process would show up as a deviation here)
+        order = np.random.default_rng([shard["seed"], 16, shard["shard"]]).permutation(len(tasks))
+        recent = []
+        for j in order:
+            n0 = len(violations)
+            dispatch(tasks[j])
+            for vv in violations[n0:]:
+                vv["case"]["preceding_runs"] = [list(t) for t in recent[-4:]]
+                vv["replay"]["only"] = vv["case"]
+            recent.append(tasks[j])
+            counters["runs_in_shuffled_order"] = counters.get("runs_in_shuffled_order", 0) + 1
 
     return {"evaluations": len(cases), "nontrivial": len(nontrivial), "samples": samples,
             "counters": counters, "violations": violations,
